@@ -13,7 +13,7 @@ pub fn nil() -> Term {
 
 /// Applied to a Parigot-encoded list it determines if it is empty.
 ///
-/// IS_NIL ≡ λl.l TRUE (λax.FALSE) ≡ λ 1 TRUE (λ λ FALSE)
+/// IS_NIL ≡ λl.l TRUE (λaxr.FALSE) ≡ λ 1 TRUE (λ λ λ FALSE)
 ///
 /// # Example
 /// ```
@@ -23,7 +23,7 @@ pub fn nil() -> Term {
 /// assert_eq!(beta(app(is_nil(), nil()), NOR, 0), true.into());
 /// ```
 pub fn is_nil() -> Term {
-    abs(app!(Var(1), tru(), abs!(2, fls())))
+    abs(app!(Var(1), tru(), abs!(3, fls())))
 }
 
 /// Applied to two terms it returns them contained in a Parigot-encoded list.
